@@ -224,6 +224,7 @@ fn unesc(s: &str) -> String {
 
 extern "C" {
     fn personality(persona: std::os::raw::c_ulong) -> std::os::raw::c_int;
+    fn kill(pid: std::os::raw::c_int, sig: std::os::raw::c_int) -> std::os::raw::c_int;
 }
 const ADDR_NO_RANDOMIZE: std::os::raw::c_ulong = 0x0040000;
 
@@ -334,6 +335,22 @@ pub fn run_host(env: &Env, backend: Backend, build: Build, texts: &[(u32, String
     cmd.current_dir(&cfg.cwd);
     cmd.stdin(Stdio::piped()).stdout(Stdio::piped()).stderr(Stdio::piped());
     let mut child = cmd.spawn().map_err(|e| HarnessError(format!("spawn {}: {}", bin.display(), e)))?;
+    // watchdog (real time, harness side only): an expansion that never returns must end as a
+    // harness error, not as a check that hangs
+    let (done_tx, done_rx) = std::sync::mpsc::channel::<()>();
+    let pid = child.id() as i32;
+    let n_events = cfg.events.len() as u64;
+    let limit = std::time::Duration::from_secs(120 + n_events / 2);
+    let dog = std::thread::spawn(move || {
+        if done_rx.recv_timeout(limit).is_err() {
+            unsafe {
+                kill(pid, 9);
+            }
+            true
+        } else {
+            false
+        }
+    });
     {
         let mut stdin = child.stdin.take().unwrap();
         stdin.write_all(plan.as_bytes()).map_err(|e| HarnessError(format!("write plan: {}", e)))?;
@@ -343,6 +360,10 @@ pub fn run_host(env: &Env, backend: Backend, build: Build, texts: &[(u32, String
     let mut err = String::new();
     let _ = child.stderr.take().unwrap().read_to_string(&mut err);
     let st = child.wait().map_err(|e| HarnessError(format!("wait: {}", e)))?;
+    let _ = done_tx.send(());
+    if dog.join().unwrap_or(false) {
+        return Err(HarnessError(format!("host killed by the watchdog after {} s (an expansion did not return)", limit.as_secs())));
+    }
     if !st.success() {
         return Err(HarnessError(format!("host exited with {:?}: {}", st, err.trim())));
     }
